@@ -53,6 +53,31 @@ def finalize_once(ctx):
                 ctx.find(P, 'RF2-csdo-final', f, 'final:%d:%d' % (st, has_cb), m.loc(f, m.funcs[f].line), '%s: %s' % (site, bad))
             else:
                 ctx.ob(P, 'RF2-csdo-final', f, site, 'callback once, client idle' if st == BUSY else 'nothing happens')
+    # release last: once State = IDLE is stored a new request is accepted (from the completion callback, from a task it
+    # wakes): everything finalisation does to the transfer context must be done before - otherwise it wipes the context of
+    # the NEW transfer (no callback ever, orphaned timeout action)
+    for has_cb in (0, 1):
+        pe = PEval(m, f)
+        pe.record_sets = False
+        pe.store_filter = lambda k, fld: fld is not None and fld[0] in ('CO_CSDO', 'CO_CSDO_TRANSFER')
+        trs = pe.run({'csdo': 1, 'csdo->State': BUSY, 'csdo->Tfer.Call': has_cb, 'csdo->Tfer.Tmr': 4, 'call:COTmrDelete': 0})
+        bad = None
+        for t in trs:
+            rel = [i for i, e in enumerate(t.events) if e[0] == 'store' and e[4] == ('CO_CSDO', 'State') and e[2] == IDLE]
+            if not rel:
+                bad = 'no release'
+                continue
+            after = [e for e in t.events[rel[0] + 1:] if (e[0] == 'store' and e[4] is not None and e[4][0] == 'CO_CSDO_TRANSFER') or e[0] == 'call']
+            if after:
+                what = after[0]
+                bad = 'after the client was released (State = IDLE) finalisation still %s' % (
+                    'stores %s' % what[1] if what[0] == 'store' else 'calls %s' % what[1])
+        site = 'COCSdoTransferFinalize releases the client last (callback=%d)' % has_cb
+        if bad:
+            ctx.ob(P, 'RF2-csdo-final', f, site, None)
+            ctx.find(P, 'RF2-csdo-final', f, 'release-not-last', m.loc(f, m.funcs[f].line), '%s: %s' % (site, bad))
+        else:
+            ctx.ob(P, 'RF2-csdo-final', f, site, 'no store to the transfer context and no call after the release')
     # the completion callback is invoked nowhere else
     for fname, fn in sorted(m.funcs.items()):
         for n in walk(fn.body):
